@@ -455,6 +455,102 @@ pub fn run(prop: &'static str, tier: Tier) -> ! {
         }
         fam_json.push(json!({"family": "scripted: Scanner::set_mode before find_iter, second find_iter after a partial first one, mode_name on scanner/iterator/WithPositions", "configurations": cfgs.len(), "inputs": ins.len(), "scripts_run": scripted}));
     }
+    if prop == "C09" {
+        // long inputs: more than 2^16 lines, a column beyond 2^16, multi-byte lines; one pass from
+        // offset 0 and a second pass after a reset into the middle
+        use scnr::{MatchExtIterator, PositionProvider};
+        let cfg = Cfg::single(vec![CPat::new("[a-zé]+", 0), CPat::new("\\n", 1), CPat::new(" +", 2)]);
+        let sc = cfg.build_uncached().expect("builds");
+        let inputs_long: Vec<(&str, String)> = vec![
+            ("70 000 short lines", "ab é\n".repeat(70_000)),
+            ("one line of 70 000 bytes, then two short lines", format!("{} x\nab\n\né", "a".repeat(70_000))),
+            ("300 empty lines between tokens", format!("a{}b\n", "\n".repeat(300))),
+        ];
+        let mut n_tok = 0usize;
+        for (name, input) in &inputs_long {
+            // true line/column by a single pass over the bytes
+            let mut line_start = vec![0usize];
+            for (i, b) in input.bytes().enumerate() {
+                if b == b'\n' {
+                    line_start.push(i + 1);
+                }
+            }
+            let truth = |o: usize| -> (usize, usize) {
+                let l = match line_start.binary_search(&o) {
+                    Ok(i) => i,
+                    Err(i) => i - 1,
+                };
+                (l + 1, o - line_start[l] + 1)
+            };
+            let lenient = |o: usize| -> Option<(usize, usize)> {
+                if o > 0 && input.as_bytes()[o - 1] == b'\n' {
+                    let (l, c) = truth(o - 1);
+                    Some((l, c + 1))
+                } else {
+                    None
+                }
+            };
+            let mut bad: Option<String> = None;
+            let r = bridge::catch(|| {
+                let mut it = sc.find_iter(input).with_positions();
+                let mut bad = None;
+                let mut count = 0usize;
+                let mut pass = 0;
+                loop {
+                    match it.next() {
+                        Some(m) => {
+                            count += 1;
+                            let (s, e) = (m.start(), m.end());
+                            let sp = (m.start_position().line, m.start_position().column);
+                            let ep = (m.end_position().line, m.end_position().column);
+                            if sp != truth(s) {
+                                bad = Some(format!("token {s}..{e} delivered with start position {sp:?}, true {:?}", truth(s)));
+                                break;
+                            }
+                            if ep != truth(e) && Some(ep) != lenient(e) {
+                                bad = Some(format!("token {s}..{e} delivered with end position {ep:?}, true {:?}", truth(e)));
+                                break;
+                            }
+                        }
+                        None => {
+                            // position queries on scanned offsets, then a reset into the middle and a second pass
+                            for o in [0, input.len() / 3, input.len() / 2, input.len() - 1, input.len()] {
+                                if input.is_char_boundary(o) {
+                                    let p = it.position(o);
+                                    if (p.line, p.column) != truth(o) && Some((p.line, p.column)) != lenient(o) {
+                                        bad = Some(format!("position({o}) is {:?}, true {:?}", (p.line, p.column), truth(o)));
+                                    }
+                                }
+                            }
+                            pass += 1;
+                            if pass == 2 || bad.is_some() {
+                                break;
+                            }
+                            let mut mid = input.len() / 2;
+                            while !input.is_char_boundary(mid) {
+                                mid += 1;
+                            }
+                            it.set_offset(mid);
+                        }
+                    }
+                }
+                (bad, count)
+            });
+            match r {
+                Ok((b, c)) => {
+                    bad = b;
+                    n_tok += c;
+                }
+                Err(p) => bad = Some(format!("panicked: {p}")),
+            }
+            total.pairs += 1;
+            total.transitions += 1;
+            if let Some(b) = bad {
+                total.viol.add("", || Violation { key: String::new(), summary: format!("long input ({name}): {b}"), replay: json!({"configuration": cfg.to_json(), "input": name, "input_bytes": input.len(), "calls": ["find_iter(input).with_positions()", "next() until None", "position(o) for some scanned o", "set_offset(len/2)", "next() until None"], "disagreement": b}) });
+            }
+        }
+        fam_json.push(json!({"family": "long inputs: 70 000 lines, a 70 000 byte line, 300 empty lines; full pass, position queries, reset into the middle, second pass", "cases": inputs_long.len(), "token_positions_compared": n_tok}));
+    }
     let n_dis = total.viol.total();
     std::mem::take(&mut total.viol).flush(&mut run);
     let mut cov = Map::new();
